@@ -22,7 +22,7 @@ class C06(HistProp):
     id = 'C06'
     module = 'Cbor.Props.C06'
     extra_modules = ['Cbor.Props.HeapLoad']
-    theorems = ['Props.HeapLoad.failed_load_clean', 'HB.hload_refines', 'Props.C06.C06_copy_atomic', 'Props.C06.C06_load_any_schedule', 'Props.C06.C06_copy_any_schedule', 'Heap.copy_spec', 'Lemmas.Safe.load_safe', 'Heap.copy_frame_all', 'Props.C06.new1_atomic', 'Props.C06.new2_atomic', 'Props.C06.newMulti_atomic', 'Props.C06.push_atomic', 'Props.C06.map_add_atomic',
+    theorems = ['Props.C06.C06_serialize_alloc_atomic', 'Props.HeapLoad.failed_load_clean', 'HB.hload_refines', 'Props.C06.C06_copy_atomic', 'Props.C06.C06_load_any_schedule', 'Props.C06.C06_copy_any_schedule', 'Heap.copy_spec', 'Lemmas.Safe.load_safe', 'Heap.copy_frame_all', 'Props.C06.new1_atomic', 'Props.C06.new2_atomic', 'Props.C06.newMulti_atomic', 'Props.C06.push_atomic', 'Props.C06.map_add_atomic',
                 'Props.C06.add_chunk_atomic', 'Props.C06.build_tag_atomic', 'Props.C06.set_atomic']
     trusted_base = BASE_TRUST + HEAP_TRUST + [
         'for every oracle: cbor_load reports cleanly (item / NULL + code, no model fault: load_safe) and cbor_copy leaves all pre-existing items intact with balanced books '
